@@ -6,12 +6,14 @@ python3 - <<'PY'
 import sys
 sys.path.insert(0, "lib")
 import vp
-ok, failing, log = vp.coq_build(None, timeout=3400)
+ok, failing, log = vp.coq_build(None, timeout=3400, keep_going=True)
 print(log[-2000:])
 if not ok:
-    print("coq build failed at", failing); sys.exit(1)
+    # keep going: every check rebuilds (and reports on) exactly the files its property depends on
+    print("coq build: some file failed (first: %s); the checks that depend on it will report it" % failing)
 gm = vp.harness_prepare()
 env = vp.go_env()
-rc, out = vp.sh("go test -modfile=%s -tags verif -count=1 -run XXX_NONE ./... 2>&1 | tail -30" % gm, cwd=vp.HARNESS, env=env, timeout=3000)
+# overlay/ holds in-package files that are only ever compiled inside /repo packages through `go test -overlay`
+rc, out = vp.sh("go test -modfile=%s -tags verif -count=1 -run XXX_NONE $(go list -modfile=%s -tags verif ./... | grep -v /overlay/) 2>&1 | tail -40" % (gm, gm), cwd=vp.HARNESS, env=env, timeout=3000)
 print(out)
 PY
